@@ -20,15 +20,19 @@ func GoKeywords() []string {
 }
 
 // names the generated code itself declares or uses in a method / helper body
-var generatedLocals = []string{"ret", "args", "resp", "err", "buf", "msg", "c", "out", "callErr", "errOut", "fmt", "bus", "basic", "nil", "value"}
-var generatedLocalsSig = []string{"buf", "err"}
+// (value: when a dynamic value is around; len, make: when a list or map is)
+var generatedLocals = []string{"ret", "args", "resp", "err", "buf", "msg", "c", "out", "callErr", "errOut", "fmt", "bus", "basic", "nil", "value", "len", "make"}
+var generatedLocalsSig = []string{"buf", "err", "len"}
+
+// CleanVarNames: the names signature.CleanVarName renames (in the interface declarations only)
+func CleanVarNames() []string { return append(GoKeywords(), "error", "string") }
 
 // method names the generated proxy / implementor interfaces already contain
 var reservedMethods = []string{"proxy", "withContext", "activate", "onTerminate", "receive", "isStatsEnabled", "stats",
 	"enableStats", "clearStats", "isTraceEnabled", "enableTrace"}
 
 // identifiers that look dangerous but are legal parameter names in every position
-var benignParams = []string{"string", "error", "len", "make", "impl", "from", "true", "size", "i", "m", "s", "b", "v", "e", "ch", "name", "update", "prop"}
+var benignParams = []string{"impl", "from", "true", "size", "i", "m", "s", "b", "v", "e", "ch", "name", "update", "prop", "k", "r", "w"}
 
 // names that signature.CleanMethodName prefixes with "Do"
 var cleanedMethods = []string{"call", "terminate", "property", "properties", "setProperty", "subscribe", "metaObject", "objectID", "serviceID"}
@@ -98,7 +102,7 @@ func GenHostile(r *hx.Rng, name, class string) *Package {
 	switch class {
 	case "kw_param":
 		a := withParam("fn sig prop")
-		a.Params[r.Intn(len(a.Params))].Name = pick(r, GoKeywords())
+		a.Params[r.Intn(len(a.Params))].Name = pick(r, CleanVarNames())
 	case "recv_param":
 		a := withParam("fn sig prop")
 		a.Params[r.Intn(len(a.Params))].Name = "p"
@@ -131,7 +135,11 @@ func GenHostile(r *hx.Rng, name, class string) *Package {
 		a.Name = pick(r, reservedMethods)
 	case "kw_names":
 		ks := GoKeywords()
-		s := newStruct(pick(r, ks), pick(r, ks), "a")
+		sn := pick(r, ks)
+		for strings.HasPrefix(sn, "str") { // a type reference starting with a basic type's name is not accepted by the IDL parser (C18)
+			sn = pick(r, ks)
+		}
+		s := newStruct(sn, pick(r, ks), "a")
 		addFn(pick(r, ks), []Param{{"a", RefTo(s)}})
 		it0.Actions = append(it0.Actions, &Action{Kind: "sig", Name: pick(r, ks), Params: []Param{{"a", RefTo(s)}}})
 		it0.Actions = append(it0.Actions, &Action{Kind: "prop", Name: pick(r, ks), Params: []Param{{"a", Sc("int16")}}})
